@@ -171,7 +171,20 @@ def gen(rng, idx, tier):
             ga.setdefault("lib", {})["com.github.googlei18n.ufo2ft.colorLayerMapping"] = [[lname, 0]]
             lib["com.github.googlei18n.ufo2ft.colorPalettes"] = [[[1, 0, 0, 1]]]
             extra_glyphs = [ga["name"] + "." + lname, gb["name"] + "." + lname]
+    skip_lib = skip_arg = None
+    if stratum == "default" and dup is None and not uvs and not layers and len(real) >= 3 \
+            and rng.random() < 0.12:
+        # "exported": the set of glyphs that is ordered and mapped is the source's minus the
+        # effective skip list - the argument when one is given (an EMPTY one says: export
+        # everything), else the UFO's own public.skipExportGlyphs
+        pool = [g["name"] for g in real if not g["contours"] or rng.random() < 0.5] or [real[0]["name"]]
+        skip_lib = rng.sample(pool, rng.randint(1, min(3, len(pool)))) if rng.random() < 0.8 else []
+        skip_arg = rng.choice([None, None, [], [], (), rng.sample(pool, 1)])
+        if skip_arg is not None:
+            skip_arg = list(skip_arg)
+        lib["public.skipExportGlyphs"] = skip_lib
     return {"stratum": stratum, "dup": dup, "extra_glyphs": extra_glyphs,
+            "skip_lib": skip_lib, "skip_arg": skip_arg,
             "ufo": dict({"glyphs": glyphs, "glyphOrder": stored, "lib": lib,
                          "info": {"unitsPerEm": 1000, "familyName": "T", "styleName": "R"}},
                         **({"layers": layers} if layers else {})),
@@ -183,7 +196,8 @@ def sample_view(case):
     return {"names": [g["name"] for g in case["ufo"]["glyphs"]][:20],
             "unicodes": [g["unicodes"] for g in case["ufo"]["glyphs"]][:20],
             "stored_order": case["ufo"]["glyphOrder"], "order_arg": case["arg"],
-            "fmt": case["fmt"], "lib": case["lib"], "stratum": case["stratum"]}
+            "fmt": case["fmt"], "lib": case["lib"], "stratum": case["stratum"],
+            "skip_lib": case.get("skip_lib"), "skip_arg": case.get("skip_arg")}
 
 
 def ref_order(names, order):
@@ -228,6 +242,15 @@ def run(case):
         if case.get("extra_glyphs"):
             bump("colour_layer_fonts")
         kw = dict(useProductionNames=False)
+        skipped = set()
+        if case.get("skip_lib") is not None:
+            skipped = set(case["skip_lib"] if case["skip_arg"] is None else case["skip_arg"])
+            if case["skip_arg"] is not None:
+                kw["skipExportGlyphs"] = list(case["skip_arg"])
+                bump("explicit_skip_argument_empty" if not case["skip_arg"]
+                     else "explicit_skip_argument")
+            bump("fonts_with_a_skip_list")
+            names = [n for n in names if n not in skipped]
         if case["arg"] is not None:
             kw["glyphOrder"] = list(case["arg"])
             bump("explicit_order_arg")
@@ -275,7 +298,8 @@ def run(case):
         mapping = {}
         for g in spec["glyphs"]:
             for cp in g["unicodes"]:
-                mapping[cp] = g["name"]
+                if g["name"] not in skipped:
+                    mapping[cp] = g["name"]
         bmp = {cp: n for cp, n in mapping.items() if cp <= 0xFFFF}
         has_sup = len(bmp) != len(mapping)
         if has_sup:
